@@ -62,7 +62,7 @@ if os.path.exists(rp):
     txt=open(rp,errors='replace').read()
     hits=[l.strip() for l in txt.split('\n') if re.search(r'trigger|manifest|needs|only when|only if', l, re.I)]
     needs=' '.join(hits)[:900]
-meta.update({"property":p,"mutation":int(k),"round":(3 if os.environ.get('SEED_TAG','').startswith('r3') else 2) if os.environ.get('SEED_TAG') else 1,
+meta.update({"property":p,"mutation":int(k),"round":(int(os.environ['SEED_TAG'][1]) if os.environ.get('SEED_TAG','')[1:2].isdigit() else 1),
  "needs_to_manifest":needs,
  "what_was_run":"tools/seedtest.sh: in a scratch worktree - git apply patch.diff; go build ./...; go test ./emitter ./lexer ./parser (existing suite); the demo with and without the patch; then ./check <ids> --tier quick with VERIF_REPO=<worktree at /repo HEAD + patch>",
  "confirmed":{"build_ok":build=="0","existing_suite_passes":suite=="0","demo_fails_with_mutation":mut!="0","demo_passes_without":clean=="0"},
